@@ -19,7 +19,10 @@
    2 ncallers nkeys …  FREE-RUNNING jittered run ("monitored, not model-compared"): the model cannot predict the
                        schedule; the observation is the event log, 5 words per event [type; caller; key; outcome; value]
                          type 1 EStart, 2 EBegin, 3 EEnd, 4 ERet, 5 EFinal (outcome = present?)   outcome 0 value, 1 error
-                       judged by the monitor mon_accepts of C17_Model.v; c17_run answers [] and agree = holds = monitor. *)
+                       judged by the monitor mon_accepts of C17_Model.v; c17_run answers [] and agree = holds = monitor.
+                       input words after nkeys: lat_us, then per caller [key; delay_us; outcome]; they only steer the
+                       harness (lat_us > 0 sleep in fn, 0 one yield, < 0 return at once; delay_us < 0 = busy-wait of
+                       -delay_us iterations: the "tightrace" stream) and are not read by the monitor. *)
 
 From Gogu Require Import Base C17_Model.
 Local Open Scope Z_scope.
